@@ -375,8 +375,105 @@ fn tree_json(t: &Tree, fault: &Fault) -> Value {
     json!({"style": t.style, "specs": t.specs.iter().map(|s| json!({"includes": s.includes, "pos": s.pos})).collect::<Vec<_>>(), "fault": format!("{:?}", fault)})
 }
 
+
+/// Include structures far deeper, wider and longer than the four-file trees: a chain of files each
+/// including the next, one directive listing many files, an included file with thousands of lines.
+/// `kind`: "chain" | "wide" | "long"; the expected list of (text, file, line) is built alongside the files.
+fn scale_check(kind: &str, n: usize, dir: &Path) -> Result<(), (String, String)> {
+    let _ = std::fs::remove_dir_all(dir);
+    std::fs::create_dir_all(dir.join("sub")).map_err(|e| ("harness-io".to_string(), e.to_string()))?;
+    let mut expect: Vec<(String, String, usize)> = vec![];
+    let write = |name: &str, text: String| std::fs::write(dir.join(name), text).map_err(|e| ("harness-io".to_string(), e.to_string()));
+    match kind {
+        "chain" => {
+            // f0 includes sub/f1 includes f2 (relative to sub) ...: directories alternate
+            let name = |i: usize| if i % 2 == 1 { format!("sub/f{}.ds", i) } else { format!("f{}.ds", i) };
+            let rel = |from: usize, to: usize| if from % 2 == 0 { format!("./{}", name(to)) } else { format!("../{}", name(to)) };
+            for i in 0..=n {
+                let mut lines = vec![format!("emit top{}", i)];
+                if i < n {
+                    lines.push(format!("!include_files {}", rel(i, i + 1)));
+                } else {
+                    lines.push("# the end of the chain".into());
+                }
+                lines.push(format!("emit bottom{}", i));
+                write(&name(i), lines.join("\n"))?;
+            }
+            for i in 0..=n {
+                expect.push((format!("top{}", i), name(i), 1));
+            }
+            for i in (0..=n).rev() {
+                expect.push((format!("bottom{}", i), name(i), 3));
+            }
+        }
+        "wide" => {
+            let names: Vec<String> = (1..=n).map(|i| format!("sub/w{}.ds", i)).collect();
+            write("f0.ds", format!("emit before\n!include_files {}\nemit after", names.iter().map(|x| format!("./{}", x)).collect::<Vec<_>>().join(" ")))?;
+            expect.push(("before".into(), "f0.ds".into(), 1));
+            for (i, nm) in names.iter().enumerate() {
+                let pad = i % 4;
+                write(nm, format!("{}emit w{}", "\n".repeat(pad), i + 1))?;
+                expect.push((format!("w{}", i + 1), nm.clone(), pad + 1));
+            }
+            expect.push(("after".into(), "f0.ds".into(), 3));
+        }
+        _ => {
+            write("f0.ds", "emit before\n!include_files ./sub/long.ds\nemit after".to_string())?;
+            expect.push(("before".into(), "f0.ds".into(), 1));
+            let mut lines = vec![];
+            for k in 1..=n {
+                lines.push(format!("emit L{}", k));
+                expect.push((format!("L{}", k), "sub/long.ds".into(), k));
+            }
+            write("sub/long.ds", lines.join("\n"))?;
+            expect.push(("after".into(), "f0.ds".into(), 3));
+        }
+    }
+    let root = dir.join("f0.ds").to_string_lossy().to_string();
+    let parsed = guarded(|| parser::parse_file(&root)).map_err(|p| ("scale:panic".to_string(), p))?;
+    let instrs = parsed.map_err(|e| (format!("scale:{}:parse-failed", kind), format!("{} {}: parse_file failed: {}", kind, n, e)))?;
+    let got: Vec<_> = instrs
+        .iter()
+        .filter_map(|i| match &i.instruction_type {
+            InstructionType::Script(s) if s.command.as_deref() == Some("emit") => Some((s.arguments.clone().unwrap_or_default().join(" "), i.meta_info.source.clone().unwrap_or_default(), i.meta_info.line.unwrap_or(0))),
+            _ => None,
+        })
+        .collect();
+    if got.len() != expect.len() {
+        return Err((format!("scale:{}:instruction-count", kind), format!("{} {}: {} emit instructions, expected {}", kind, n, got.len(), expect.len())));
+    }
+    for (k, (g, e)) in got.iter().zip(expect.iter()).enumerate() {
+        if g.0 != e.0 || g.2 != e.2 || !same_file(&g.1, &dir.join(&e.1)) {
+            return Err((format!("scale:{}:instruction-differs", kind), format!("{} {}: instruction {} is {:?}, expected {:?}", kind, n, k, g, e)));
+        }
+    }
+    Ok(())
+}
+
+fn scale(w: &mut Worker) {
+    let dir: PathBuf = w.scratch.join("c14-scale");
+    let sizes: Vec<(&str, usize)> = w.tier.pick(
+        vec![("chain", 12), ("chain", 40), ("wide", 12), ("wide", 100), ("long", 5000)],
+        vec![("chain", 12), ("chain", 40), ("chain", 150), ("wide", 12), ("wide", 100), ("wide", 1000), ("long", 5000), ("long", 200_000)],
+    );
+    for (kind, n) in sizes {
+        if !w.take() {
+            continue;
+        }
+        let cj = json!({"kind": "scale", "shape": kind, "n": n});
+        w.begin(|| cj.clone());
+        w.add_transitions(1);
+        match scale_check(kind, n, &dir) {
+            Ok(()) => w.pass(true, hash64(&("scale", kind))),
+            Err((sig, what)) => w.fail(&sig, &what, cj),
+        }
+    }
+    let _ = std::fs::remove_dir_all(&dir);
+}
+
 pub fn worker(w: &mut Worker) {
     let tier = w.tier;
+    scale(w);
     let rig = Rig::new();
     let dir: PathBuf = w.scratch.join("c14");
     let every = tier.pick(5usize, 1usize);
@@ -461,6 +558,13 @@ pub fn worker(w: &mut Worker) {
 }
 
 pub fn replay(case: &Value) -> Result<String, String> {
+    if case["kind"].as_str() == Some("scale") {
+        let dir = scratch_root().join(format!("replay-c14-scale-{}", std::process::id()));
+        let r = scale_check(case["shape"].as_str().unwrap_or("chain"), case["n"].as_u64().unwrap_or(1) as usize, &dir);
+        let _ = std::fs::remove_dir_all(&dir);
+        let d = dir.to_string_lossy().to_string();
+        return Ok(format!("{:?}", r).replace(&d, "<dir>"));
+    }
     let tree = Tree {
         style: case["style"].as_u64().unwrap_or(0) as u8,
         specs: case["specs"]
@@ -500,7 +604,7 @@ pub fn crash_sig(_case: &Value, kind: &str) -> String {
     kind.to_string()
 }
 
-pub const RULE: &str = "include structures: four files r.ds, d1/a.ds, d1/d2/b.ds, c.ds; every assignment of an include directive (none / one file / two files / the same file twice, listed in one directive, at the first, middle or last line) to each file such that a file only includes files later in the order (two orders: descending into and climbing out of the nested directories), unreachable files normalised away, x path style {./relative, plain relative, absolute}. Faults (on every n-th structure): each include edge pointing to a missing file; a malformed line at every (reachable file, line); a trigger_error at every (reachable file, line); pairs of faults (a missing edge or a malformed line in an included file together with a malformed last line of the root file: the one that comes first in the pasted text must be reported). Oracle: parse_file(root) minus directive instructions equals parse_text of the recursively pasted text; every instruction carries the file it came from (compared as canonical paths) and its line in that file; running the file and the pasted text gives the same emit trace and variables; a missing file fails the parse with ErrorReadingFile naming that file; a malformed line fails with its kind, its own line and its own file; get_last_error_line/_source name the included file and line";
+pub const RULE: &str = "include structures: four files r.ds, d1/a.ds, d1/d2/b.ds, c.ds; every assignment of an include directive (none / one file / two files / the same file twice, listed in one directive, at the first, middle or last line) to each file such that a file only includes files later in the order (two orders: descending into and climbing out of the nested directories), unreachable files normalised away, x path style {./relative, plain relative, absolute}. Faults (on every n-th structure): each include edge pointing to a missing file; a malformed line at every (reachable file, line); a trigger_error at every (reachable file, line); pairs of faults (a missing edge or a malformed line in an included file together with a malformed last line of the root file: the one that comes first in the pasted text must be reported). Oracle: parse_file(root) minus directive instructions equals parse_text of the recursively pasted text; every instruction carries the file it came from (compared as canonical paths) and its line in that file; running the file and the pasted text gives the same emit trace and variables; a missing file fails the parse with ErrorReadingFile naming that file; a malformed line fails with its kind, its own line and its own file; get_last_error_line/_source name the included file and line. Scale cases: a chain of 12/40 (thorough 150) files each including the next across two directories, one directive listing 12/100 (thorough 1000) files, an included file of 5000 (thorough 200000) lines: instruction order, file and line of every instruction";
 pub const ASSUMPTIONS: &[&str] = &["cyclic includes are outside the property (C07 probes them)", "the scratch directory is on a local file system without symlinks"];
 pub const EXHAUSTIVE: bool = true;
 pub const WALL_CAP_S: (u64, u64) = (55, 1500);
